@@ -265,3 +265,153 @@ func init() {
 	}
 	s[mp+"Close"] = func(in *Interp, fr *frame, a []Value) Value { return Iface{} }
 }
+
+// ---- C06: struct layout agreement ----
+
+type layoutLeaf struct {
+	off, size int
+	name      string
+	val       *Term // Go side only
+	bytesArr  bool
+}
+
+func flattenC(t *LLType, base int, out *[]layoutLeaf) {
+	switch t.Kind {
+	case LLInt:
+		*out = append(*out, layoutLeaf{off: base, size: t.Size()})
+	case LLArray:
+		if t.Elem.Kind == LLInt && t.Elem.Bits == 8 {
+			*out = append(*out, layoutLeaf{off: base, size: t.N, bytesArr: true})
+			return
+		}
+		for i := 0; i < t.N; i++ {
+			flattenC(t.Elem, base+i*t.Elem.Size(), out)
+		}
+	case LLStruct:
+		for i, f := range t.Fields {
+			flattenC(f, base+t.FieldOffset(i), out)
+		}
+	default:
+		*out = append(*out, layoutLeaf{off: base, size: t.Size()})
+	}
+}
+
+// flattenGo walks a Go type in encoding/binary order creating a fresh symbolic value per named scalar leaf.
+func (in *Interp) flattenGo(t types.Type, name string, off *int, blank bool, out *[]layoutLeaf, bytesOut *[]*Term) {
+	tc := in.tc
+	switch u := t.Underlying().(type) {
+	case *types.Basic:
+		w := in.widthOf(u)
+		size := 1
+		if w > 0 {
+			size = w / 8
+		}
+		var v *Term
+		if w == 0 {
+			v = in.fresh(name, 8)
+		} else {
+			v = in.fresh(name, w)
+		}
+		if !blank {
+			*out = append(*out, layoutLeaf{off: *off, size: size, name: name, val: v})
+		} else {
+			*out = append(*out, layoutLeaf{off: *off, size: size, name: "_"})
+		}
+		for i := 0; i < size; i++ {
+			*bytesOut = append(*bytesOut, tc.Extract(v, 8*i+7, 8*i))
+		}
+		*off += size
+	case *types.Array:
+		if b, ok := u.Elem().Underlying().(*types.Basic); ok && b.Kind() == types.Uint8 {
+			if !blank {
+				*out = append(*out, layoutLeaf{off: *off, size: int(u.Len()), name: name, bytesArr: true})
+			}
+			for i := 0; i < int(u.Len()); i++ {
+				*bytesOut = append(*bytesOut, in.fresh(fmt.Sprintf("%s[%d]", name, i), 8))
+			}
+			*off += int(u.Len())
+			return
+		}
+		for i := 0; i < int(u.Len()); i++ {
+			in.flattenGo(u.Elem(), fmt.Sprintf("%s[%d]", name, i), off, blank, out, bytesOut)
+		}
+	case *types.Struct:
+		for i := 0; i < u.NumFields(); i++ {
+			f := u.Field(i)
+			n := f.Name()
+			if name != "" {
+				n = name + "." + n
+			}
+			in.flattenGo(f.Type(), n, off, blank || f.Name() == "_", out, bytesOut)
+		}
+	default:
+		panic(unsupported("layout of Go type " + t.String()))
+	}
+}
+
+func init() {
+	// vBPFLayout(prog, cStruct string, goZero interface{}): the bytes the control plane marshals for a value of the Go
+	// type must have the size, field offsets and widths of the C struct, and every C field read must return the Go field.
+	harnessAPI["vBPFLayout"] = func(in *Interp, fr *frame, a []Value) Value {
+		prog, cname := a[0].(string), a[1].(string)
+		itf, ok := a[2].(Iface)
+		if !ok || itf.T == nil {
+			panic(unsupported("vBPFLayout needs a typed value"))
+		}
+		mod, err := loadBPFModule(prog)
+		if err != nil {
+			panic(unsupported("llir: " + err.Error()))
+		}
+		ct := mod.Types["struct."+cname]
+		if ct == nil {
+			ct = mod.Types[cname]
+		}
+		if ct == nil {
+			panic(unsupported(fmt.Sprintf("llir: C struct %s not found in the IR of %s.c (layout cannot be checked)", cname, prog)))
+		}
+		site := "layout " + itf.T.String() + " <-> struct " + cname
+		var cLeaves, gLeaves []layoutLeaf
+		flattenC(ct, 0, &cLeaves)
+		off := 0
+		var gbytes []*Term
+		in.flattenGo(itf.T, "", &off, false, &gLeaves, &gbytes)
+		tc := in.tc
+		fail := func(cond bool, msg, where string) {
+			if !cond && in.feasible() {
+				in.ensureModel()
+				in.report("assert", msg, site+": "+where, in.path.model)
+			}
+		}
+		fail(off == ct.Size(), "marshalled size of the Go type differs from the C struct size", fmt.Sprintf("Go %d bytes, C %d bytes", off, ct.Size()))
+		cAt := map[int]layoutLeaf{}
+		for _, l := range cLeaves {
+			cAt[l.off] = l
+		}
+		gAt := map[int]layoutLeaf{}
+		for _, l := range gLeaves {
+			gAt[l.off] = l
+			if l.name == "_" {
+				continue // explicit Go padding: only has to cover C padding of the same place (checked from the C side)
+			}
+			c, ok := cAt[l.off]
+			fail(ok && c.size == l.size, "Go field has no C field of the same offset and width", fmt.Sprintf("Go field %s at offset %d (%d bytes)", l.name, l.off, l.size))
+			if ok && c.size == l.size && l.val != nil && l.off+l.size <= len(gbytes) {
+				// what the C program loads from the marshalled bytes (little endian) is the Go field's value
+				rd := gbytes[l.off+l.size-1]
+				for i := l.size - 2; i >= 0; i-- {
+					rd = tc.Concat(rd, gbytes[l.off+i])
+				}
+				in.assertTerm(tc.Eq(rd, l.val), "C read of field "+l.name+" differs from the value written by Go", site)
+			}
+		}
+		for _, c := range cLeaves {
+			if c.bytesArr {
+				continue // byte arrays in C are either real fields (checked from the Go side) or explicit padding
+			}
+			g, ok := gAt[c.off]
+			ok = ok && g.size == c.size
+			fail(ok, "C struct has a field that the Go type does not write at that offset", fmt.Sprintf("C field at offset %d (%d bytes)", c.off, c.size))
+		}
+		return nil
+	}
+}
